@@ -8,8 +8,16 @@ HERE = os.path.dirname(os.path.dirname(os.path.abspath(__file__)))
 
 def worker(cases):
     env = dict(os.environ, YALAFI_REPO=impl.REPO, PYTHONHASHSEED='0')
-    p = subprocess.run(['/venv/bin/python', os.path.join(HERE, 'hist_worker.py')], input=json.dumps(cases).encode(),
-                       stdout=subprocess.PIPE, stderr=subprocess.PIPE, timeout=120, env=env)
+    p = None
+    for limit in (120, 600):           # a second, generous try on a busy machine
+        try:
+            p = subprocess.run(['/venv/bin/python', os.path.join(HERE, 'hist_worker.py')], input=json.dumps(cases).encode(),
+                               stdout=subprocess.PIPE, stderr=subprocess.PIPE, timeout=limit, env=env)
+            break
+        except subprocess.TimeoutExpired:
+            p = None
+    if p is None:
+        return [{'outcome': 'worker-failed', 'exc': 'no answer within 600 s'}] * len(cases)
     if p.returncode != 0:
         return [{'outcome': 'worker-failed', 'exc': p.stderr.decode('utf-8', 'replace')[-300:]}] * len(cases)
     return json.loads(p.stdout.decode())
